@@ -89,13 +89,20 @@ Fixpoint round_loop (fuel : nat) (st : cstate) (max_read mtu : Z) (acc : list (b
   | S f =>
     match read_chunk st max_read with
     | (CEOF, st') => RRound (rev acc) false st'
-    | (CTooSmall, st') => RRound (rev acc) (negb (max_read =? mtu)) st'
+    | (CTooSmall, st') =>
+      match cs_cur st' with
+      | None =>
+        (* a forced message break (the reader was dropped): it ends the message, unless nothing has been put into the
+           message yet: then there is nothing to separate and reading goes on *)
+        if max_read =? mtu then round_loop f st' max_read mtu acc else RRound (rev acc) true st'
+      | Some _ => RRound (rev acc) (negb (max_read =? mtu)) st'      (* no room for the pending key *)
+      end
     | (CErr, _) => RFail
     | (CKV k v, st') => round_loop f st' (max_read - kv_size k v) mtu ((k, v) :: acc)
     end
   end.
 
-Definition round (st : cstate) (mtu : Z) : round_res := round_loop (S (Z.to_nat mtu)) st mtu mtu [].
+Definition round (st : cstate) (mtu : Z) : round_res := round_loop (S (Z.to_nat mtu) + length (cs_queue st)) st mtu mtu [].
 
 (* reassembly on the receiving side: consecutive chunks with the same key are one stream; chunks that carry no
    bytes leave no trace *)
